@@ -348,9 +348,11 @@ impl<'a> Ctx<'a> {
 
     /// Get the [`Primitive`] value and its associated [`VariableFlags`] from a name.
     ///
-    /// Will start the search in the current function and bubble all the way up to the highest stack frame.
+    /// Will search the frames of the current function only (its block scopes and its own frame):
+    /// variables of enclosing functions reach a function through its captured variables, never
+    /// through the frames of whoever happens to be calling it.
     pub(crate) fn load_variable(&self, name: &str) -> Option<PrimitiveFlagsPair> {
-        self.call_stack.borrow().find_name(name)
+        self.call_stack.borrow().find_name_in_function(name)
     }
 
     pub(crate) fn load_self_export(&self, name: &str) -> Option<PrimitiveFlagsPair> {
